@@ -117,6 +117,14 @@ fn real_main(args: Vec<String>) {
                 "bls12_381_g2" => h2c::record_wb::<ark_test_curves::bls12_381::g2::Config>("bls12_381_g2", seed, n, &mut f),
                 other => panic!("unknown h2c configuration {other}") }
         }
+        ("record", "config") => {
+            let seed: u64 = arg(&args, "--seed").and_then(|s| s.parse().ok()).unwrap_or(1);
+            let out = arg(&args, "--out").expect("--out");
+            let mut f = std::io::BufWriter::new(std::fs::File::create(out).expect("create trace file"));
+            if cfg == "list" { println!("{}", serde_json::json!(vh_core::gen_config::GROUPS)); return; }
+            let ev = vh_core::gen_config::dump_group(cfg.as_str(), seed).unwrap_or_else(|| panic!("unknown configuration group {cfg}"));
+            vh_core::config::write_dump(cfg.as_str(), ev, &mut f)
+        }
         ("record", "pairing") => {
             let seed: u64 = arg(&args, "--seed").and_then(|s| s.parse().ok()).unwrap_or(1);
             let n: usize = arg(&args, "--n").and_then(|s| s.parse().ok()).unwrap_or(200);
